@@ -286,6 +286,12 @@ def r3(ctx, R):
         for x in clears + addn + marks:
             if not top(x):
                 R.bad(fi, x, "input bookkeeping runs inside a formula")
+    en = ctx.func("NonThreadedExecutor.eval_node")
+    R.inst("eval_node serves a held (assigned) value by membership, whatever the value is")
+    hn = [n for n in en.cfg.nodes if n.kind == "test" and q.mentions_call(n.ast, "has_node")]
+    if len(hn) != 1:
+        R.bad(en, en.node, "a held value is not recognised by membership: an assigned None/falsy input is recomputed "
+                           "from the formula and overwritten", stmt="hit test")
     sv = ctx.func("CellsImpl.set_value")
     R.inst("set_value -> set_value_from_key(get_node(self, args, {})[KEY], value)")
     c = q.calls(sv, name="set_value_from_key")
